@@ -1,5 +1,6 @@
 import MosdnsVerif.Model.C05
 import MosdnsVerif.Gen.FnCache
+import MosdnsVerif.Gen.FnTtl
 
 /-! The admission decision of the C05 model is the decision part of
 `saveRespToCache` as regenerated from the source (T1), for every message:
@@ -56,4 +57,77 @@ theorem admission_eq_gen (lazyTtl : Int) (m : Msg) :
           have i2 : ¬ (m.rcode : Int) = 2 := by omega
           simp [h0, h2, h3, i3, i2]
   · simp
+/-! ## the TTL helpers, record by record
+
+The bodies of the innermost loops of `SubtractTTL`, `SetTTL` and `GetMinimalTTL` are regenerated (T1);
+the loops themselves (one pass over Answer, Ns, Extra, every record once) are the fact
+`c05TtlHelpersVisitEveryRecordOnce`. `ty` gives a record's type; the model only knows whether it is OPT (41). -/
+
+theorem subRR_eq_gen (r : RR) (delta : UInt32) (ov : Bool) (rrtype : UInt16) (h : (rrtype == 41) = r.isOpt) :
+    (Gen.subtractTTLStep rrtype r.ttl delta ov).1 = (subRR delta r).ttl := by
+  unfold Gen.subtractTTLStep subRR
+  cases ho : r.isOpt <;> simp [ho] at h ⊢
+  · have : ¬ rrtype = 41 := h
+    simp [this]
+    split <;> simp_all
+  · simp [h]
+
+theorem setRR_eq_gen (r : RR) (t : UInt32) (rrtype : UInt16) (h : (rrtype == 41) = r.isOpt) :
+    Gen.setTTLStep rrtype r.ttl t = (setRR t r).ttl := by
+  unfold Gen.setTTLStep setRR
+  cases ho : r.isOpt <;> simp [ho] at h ⊢
+  · have : ¬ rrtype = 41 := h
+    simp [this]
+  · simp [h]
+
+/-- the loops of `GetMinimalTTL` over the three sections, with the regenerated body -/
+def codeMinTTL (ty : RR → UInt16) (m : Msg) : UInt32 :=
+  let r := m.rrs.foldl (fun (acc : Bool × UInt32) rr => Gen.getMinimalTTLStep (ty rr) rr.ttl acc.1 acc.2) (false, 0xFFFFFFFF)
+  if !r.1 then 0 else r.2
+
+def minStep (a b : UInt32) : UInt32 := if b < a then b else a
+
+theorem fold_inv (ty : RR → UInt16) (hty : ∀ rr, (ty rr == 41) = rr.isOpt) :
+    ∀ (l : List RR) (acc : Bool × UInt32),
+      l.foldl (fun (acc : Bool × UInt32) rr => Gen.getMinimalTTLStep (ty rr) rr.ttl acc.1 acc.2) acc =
+      (acc.1 || (l.filter (fun r => !r.isOpt)).length != 0,
+       ((l.filter (fun r => !r.isOpt)).map (·.ttl)).foldl minStep acc.2) := by
+  intro l
+  induction l with
+  | nil => intro acc; simp
+  | cons r rs ih =>
+    intro acc
+    simp only [List.foldl_cons]
+    rw [ih]
+    have h := hty r
+    cases ho : r.isOpt
+    · have hne : ¬ ty r = 41 := by simpa [ho] using h
+      simp [Gen.getMinimalTTLStep, hne, ho, minStep]
+    · have he : ty r = 41 := by simpa [ho] using h
+      simp [Gen.getMinimalTTLStep, he, ho]
+
+theorem minStep_max (t : UInt32) : minStep 0xFFFFFFFF t = t := by
+  unfold minStep
+  split
+  · rfl
+  · rename_i h
+    have h1 : ¬ t.toNat < (0xFFFFFFFF : UInt32).toNat := by rwa [UInt32.lt_iff_toNat_lt] at h
+    have h2 : (0xFFFFFFFF : UInt32).toNat = 4294967295 := rfl
+    have h3 := t.toNat_lt
+    apply UInt32.toNat_inj.mp
+    omega
+
+theorem minTTL_eq_gen (ty : RR → UInt16) (hty : ∀ rr, (ty rr == 41) = rr.isOpt) (m : Msg) :
+    codeMinTTL ty m = minTTL m := by
+  unfold codeMinTTL minTTL
+  rw [fold_inv ty hty]
+  cases hl : (m.rrs.filter (fun r => !r.isOpt)) with
+  | nil => simp
+  | cons r rs =>
+    simp only [Bool.false_or, List.length_cons, List.map_cons, List.foldl_cons, minStep_max]
+    have : minStep = (fun a b : UInt32 => if b < a then b else a) := by funext a b; rfl
+    rw [this]
+    simp
+
+
 end Refine.C05
